@@ -12,18 +12,30 @@ import (
 	"runtime"
 	"strings"
 	"sync"
+	"sync/atomic"
 
 	"github.com/Breeze0806/gobinlog"
 	"github.com/Breeze0806/mysql"
 )
 
-type nopLogger struct{}
+// simLogger is the log sink of gobinlog and of the driver. It prints nothing;
+// in runs that ask for it every non-debug call parks the calling goroutine
+// until the controller releases it (a yield point inside library goroutines).
+type simLogger struct{}
 
-func (nopLogger) Errorf(string, ...interface{}) {}
-func (nopLogger) Infof(string, ...interface{})  {}
-func (nopLogger) Debugf(string, ...interface{}) {}
-func (nopLogger) Print(...interface{})          {}
-func (nopLogger) Printf(string, ...interface{}) {}
+var activeRun atomic.Pointer[Run]
+
+func logPoint() {
+	if r := activeRun.Load(); r != nil {
+		r.parkInLogger()
+	}
+}
+
+func (simLogger) Errorf(string, ...interface{}) { logPoint() }
+func (simLogger) Infof(string, ...interface{})  { logPoint() }
+func (simLogger) Debugf(string, ...interface{}) {}
+func (simLogger) Print(...interface{})          { logPoint() }
+func (simLogger) Printf(string, ...interface{}) { logPoint() }
 
 var (
 	envOnce   sync.Once
@@ -33,7 +45,7 @@ var (
 
 func initEnv() {
 	envOnce.Do(func() {
-		gobinlog.SetLogger(nopLogger{})
+		gobinlog.SetLogger(simLogger{})
 		mysql.RegisterDialContext("sim", func(ctx context.Context, addr string) (net.Conn, error) {
 			runsMu.Lock()
 			r := runsByKey[addr]
